@@ -1572,6 +1572,12 @@ class MacroFunction(Macro):
                         # operand unchanged
                         res_tokens.extend(last)
                         res_tokens.extend(nexttok)
+                        if len(last) == 0 and len(nexttok) == 0:
+                            # Both operands are empty: the result is a
+                            # placemarker, the left operand of a following ##
+                            res_tokens.append(
+                                Identifier("EXPANSION", -1, prev_white, ""),
+                            )
                     last_cat = True
                 elif tok.token == "#":
                     idx += 1
@@ -1602,6 +1608,10 @@ class MacroFunction(Macro):
         substituted_tokens = []
         for token in res_tokens:
             substitution = []
+
+            # Placemarkers left by ## disappear
+            if isinstance(token, Identifier) and token.token == "":
+                continue
 
             # If a token matches an argument, it is substituted;
             # otherwise it passes through
